@@ -220,10 +220,18 @@ def spec_hybrid(ctx):
         norm(head.items[offs[spec['disk_signature_offset']][0]]) == 'self.mbr_id'
     out.append(Ob('SA-SPEC.hybrid', 'isohybrid.IsoHybrid|disk-signature', ok, ctx.loc(fi, head.call),
                   '' if ok else 'the 32-bit disk signature (mbr_id) must sit at byte %d' % spec['disk_signature_offset']))
-    ent = [s for s in sites if s.size == spec['entry_size'] and len(s.fields) == 10]
+    ent = [(fi, s) for s in sites if s.size == spec['entry_size'] and len(s.fields) == 10]
+    if not ent:
+        # the entry may be packed by a helper of the class that record() calls
+        for c in ctx.own_nodes(fi):
+            if isinstance(c, ast.Call) and isinstance(c.func, ast.Attribute) and isinstance(c.func.value, ast.Name) and c.func.value.id == 'self' and \
+                    c.func.attr in ci.methods and c.func.attr != 'record':
+                h = ci.methods[c.func.attr]
+                ent.extend((h, s) for s in sf.sites(ctx, h) if s.kind == 'pack' and s.fields and s.size == spec['entry_size'] and len(s.fields) == 10)
     if not ent:
         out.append(Ob('SA-SPEC.hybrid', 'isohybrid.IsoHybrid|partition-entry', False, ctx.loc(fi, fi.node), 'no 16-byte partition entry packed'))
-    for s in ent:
+    record_fi = fi
+    for fi, s in ent:
         fo = lenalg.folder(ctx, fi)
         for row in spec['entry']:
             off, w, kind = row[0], row[1], row[2]
@@ -241,6 +249,7 @@ def spec_hybrid(ctx):
                     why = 'active flag must be the constant 0x80'
             out.append(Ob('SA-SPEC.hybrid', 'isohybrid.IsoHybrid|partition-entry offset %d' % off, not why, ctx.loc(fi, s.call), why))
     # four entries, 0x55AA tail
+    fi = record_fi
     loops = [n for n in ctx.own_nodes(fi) if isinstance(n, ast.For) and norm(n.iter) == 'range(1, 5)']
     out.append(Ob('SA-SPEC.hybrid', 'isohybrid.IsoHybrid|four-entries', bool(loops), ctx.loc(fi, fi.node),
                   '' if loops else 'the partition table must have exactly four entries'))
